@@ -229,3 +229,326 @@ pub fn inputs(alphabet: &[Tok], l: usize) -> Vec<Vec<Tok>> {
     }
     all
 }
+
+// ---- C02: repetition / separator templates ------------------------------------------------------
+
+/// All bounds settings with min <= max over 0..=4 (max may be absent), the `exactly(n)` spelling,
+/// and (if `cfg`) the same bounds supplied through `configure()`.  Contradictory bounds
+/// (at_least > at_most) are not generated: the statement gives them no meaning.
+pub fn k02_bounds(cfg: bool, hi: u8) -> Vec<Bounds> {
+    let mut v = vec![];
+    for min in 0..=hi {
+        v.push(Bounds::new(min, None));
+        for max in min..=hi {
+            v.push(Bounds::new(min, Some(max)));
+        }
+    }
+    for n in 0..=hi {
+        v.push(Bounds { min: n, max: Some(n), exactly: true, cfg: false });
+    }
+    if cfg {
+        let plain: Vec<Bounds> = v.iter().filter(|b| !b.exactly).cloned().collect();
+        for b in plain {
+            v.push(Bounds { cfg: true, ..b });
+        }
+    }
+    v
+}
+
+pub fn k02_sinks() -> Vec<Sink> {
+    vec![
+        Sink::Vec,
+        Sink::Str,
+        Sink::Count,
+        Sink::Bare,
+        Sink::Enumerate,
+        Sink::Exactly(0),
+        Sink::Exactly(1),
+        Sink::Exactly(2),
+        Sink::Exactly(3),
+        Sink::Foldl(b(Empty)),
+        Sink::Foldr(b(Empty)),
+        Sink::FoldlWith(b(OrNot(b(Just('c'))))),
+        Sink::FoldrWith(b(OrNot(b(Just('c'))))),
+    ]
+}
+
+pub fn k02_items(thorough: bool) -> Vec<G> {
+    let mut v = vec![
+        Just('a'),
+        JustSeq('a', 'b'),
+        OneOf("ab"),
+        Filter(b(Any)),
+        Custom(2, true),
+        Then(b(Just('a')), b(OrNot(b(Just('b'))))),
+    ];
+    if thorough {
+        let k = k01();
+        for g in k.upto(2) {
+            if nn(&g) && !v.contains(&g) {
+                v.push(g);
+            }
+        }
+        v.extend([TryMap(b(JustSeq('a', 'b'))), Or(b(JustSeq('a', 'b')), b(Just('a'))), Then(b(Any), b(Not(b(Just(','))))), AndIs(b(Any), b(NoneOf(",")))]);
+    }
+    v
+}
+
+pub fn k02_seps(thorough: bool) -> Vec<G> {
+    let mut v = vec![Just(','), JustSeq(',', ',')];
+    if thorough {
+        v.extend([OneOf(",b"), Then(b(Just(',')), b(OrNot(b(Just(','))))), Filter(b(Any))]);
+    }
+    v
+}
+
+/// the unconsumed remainder becomes part of the output
+pub fn with_rest(g: G) -> G {
+    Then(b(g), b(ToSlice(b(Rep(b(Any), Bounds::STAR, Sink::Bare)))))
+}
+
+pub fn k02_rep(thorough: bool) -> Vec<G> {
+    let mut out = vec![];
+    for it in k02_items(thorough) {
+        for bd in k02_bounds(true, 4) {
+            for s in k02_sinks() {
+                out.push(with_rest(Rep(b(it.clone()), bd, s)));
+            }
+        }
+    }
+    out
+}
+
+pub fn k02_sep(thorough: bool) -> Vec<G> {
+    let mut out = vec![];
+    for it in k02_items(thorough) {
+        for sp in k02_seps(thorough) {
+            for bd in k02_bounds(false, 4) {
+                for (l, t) in [(false, false), (true, false), (false, true), (true, true)] {
+                    for s in k02_sinks() {
+                        out.push(with_rest(SepBy(b(it.clone()), b(sp.clone()), bd, l, t, s)));
+                    }
+                }
+            }
+        }
+    }
+    out
+}
+
+// ---- decorations (C11, C17): wrap every node of a subset --------------------------------------------
+
+/// Rebuild `g` wrapping the nodes whose pre-order index is in `mask` with `wrap`.
+pub fn decorate(g: &G, mask: u32, wrap: &dyn Fn(G) -> G) -> G {
+    fn go(g: &G, idx: &mut u32, mask: u32, wrap: &dyn Fn(G) -> G) -> G {
+        let me = *idx;
+        *idx += 1;
+        let mut r = map_children(g, &mut |c| go(c, idx, mask, wrap));
+        if mask & (1 << me) != 0 {
+            r = wrap(r);
+        }
+        r
+    }
+    let mut i = 0;
+    go(g, &mut i, mask, wrap)
+}
+
+/// Rebuild a node with its children transformed in evaluation order.
+pub fn map_children(g: &G, f: &mut dyn FnMut(&G) -> G) -> G {
+    let mut bx = |x: &G| b(f(x));
+    fn sink(s: &Sink, f: &mut dyn FnMut(&G) -> Box<G>) -> Sink {
+        match s {
+            Sink::Foldl(i) => Sink::Foldl(f(i)),
+            Sink::Foldr(i) => Sink::Foldr(f(i)),
+            Sink::FoldlWith(i) => Sink::FoldlWith(f(i)),
+            Sink::FoldrWith(i) => Sink::FoldrWith(f(i)),
+            o => o.clone(),
+        }
+    }
+    match g {
+        Just(_) | JustSeq(..) | Any | OneOf(_) | NoneOf(_) | Select(_) | End | Empty | Custom(..) | EmptyChoice | JustCtx => g.clone(),
+        Map(a) => Map(bx(a)),
+        To(a) => To(bx(a)),
+        Ignored(a) => Ignored(bx(a)),
+        Filter(a) => Filter(bx(a)),
+        TryMap(a) => TryMap(bx(a)),
+        TryMapWith(a) => TryMapWith(bx(a)),
+        OrNot(a) => OrNot(bx(a)),
+        Not(a) => Not(bx(a)),
+        Rewind(a) => Rewind(bx(a)),
+        Boxed(a) => Boxed(bx(a)),
+        ToSlice(a) => ToSlice(bx(a)),
+        ToSpan(a) => ToSpan(bx(a)),
+        Validate(a, i) => Validate(bx(a), *i),
+        Labelled(a, c) => Labelled(bx(a), *c),
+        MapErr(a) => MapErr(bx(a)),
+        Memo(a) => Memo(bx(a)),
+        WithState(a) => WithState(bx(a)),
+        Snd(a) => Snd(bx(a)),
+        Fst(a) => Fst(bx(a)),
+        MapUnit(a) => MapUnit(bx(a)),
+        MapZ(a) => MapZ(bx(a)),
+        SliceWith(a) => SliceWith(bx(a)),
+        SpanWith(a) => SpanWith(bx(a)),
+        Mid(a) => Mid(bx(a)),
+        Lazy(a) => Lazy(bx(a)),
+        NestedDelims(a) => NestedDelims(bx(a)),
+        WithCtx(c, a) => WithCtx(*c, bx(a)),
+        MapCtx(a) => MapCtx(bx(a)),
+        RepCtx(a) => RepCtx(bx(a)),
+        TryRepCtx(a) => TryRepCtx(bx(a)),
+        Rep(a, bd, s) => {
+            let a = bx(a);
+            Rep(a, *bd, sink(s, &mut bx))
+        }
+        Then(a, c) => {
+            let a = bx(a);
+            Then(a, bx(c))
+        }
+        IgnoreThen(a, c) => {
+            let a = bx(a);
+            IgnoreThen(a, bx(c))
+        }
+        ThenIgnore(a, c) => {
+            let a = bx(a);
+            ThenIgnore(a, bx(c))
+        }
+        Or(a, c) => {
+            let a = bx(a);
+            Or(a, bx(c))
+        }
+        AndIs(a, c) => {
+            let a = bx(a);
+            AndIs(a, bx(c))
+        }
+        PaddedBy(a, c) => {
+            let a = bx(a);
+            PaddedBy(a, bx(c))
+        }
+        Recover(a, c) => {
+            let a = bx(a);
+            Recover(a, bx(c))
+        }
+        ThenWithCtx(a, c) => {
+            let a = bx(a);
+            ThenWithCtx(a, bx(c))
+        }
+        IgnoreWithCtx(a, c) => {
+            let a = bx(a);
+            IgnoreWithCtx(a, bx(c))
+        }
+        DelimitedBy(a, o, c) => {
+            let a = bx(a);
+            let o = bx(o);
+            DelimitedBy(a, o, bx(c))
+        }
+        SkipUntil(a, o, c) => {
+            let a = bx(a);
+            let o = bx(o);
+            SkipUntil(a, o, bx(c))
+        }
+        Retry(a, o, c) => {
+            let a = bx(a);
+            let o = bx(o);
+            Retry(a, o, bx(c))
+        }
+        Choice(k, v) => Choice(*k, v.iter().map(|x| f(x)).collect()),
+        Group(k, v) => Group(*k, v.iter().map(|x| f(x)).collect()),
+        SepBy(a, s, bd, l, t, k) => {
+            let a = bx(a);
+            let s = bx(s);
+            SepBy(a, s, *bd, *l, *t, sink(k, &mut bx))
+        }
+    }
+}
+
+/// (undecorated, decorated) pairs: every grammar x every non-empty subset of its nodes x every wrapper
+pub fn decorated_pairs(gs: &[G], wraps: &[&dyn Fn(G) -> G]) -> Vec<G> {
+    let mut out = vec![];
+    for g in gs {
+        let n = g.size().min(20) as u32;
+        for mask in 1..(1u32 << n) {
+            for w in wraps {
+                out.push(g.clone());
+                out.push(decorate(g, mask, *w));
+            }
+        }
+    }
+    out
+}
+
+// ---- C04: explicit (value-building) formulations ------------------------------------------------------
+
+/// Rewrite every output-eliding combinator into its value-building formulation.
+pub fn explicit(g: &G) -> G {
+    let r = map_children(g, &mut |c| explicit(c));
+    match r {
+        IgnoreThen(a, c) => Snd(b(Then(a, c))),
+        ThenIgnore(a, c) => Fst(b(Then(a, c))),
+        Ignored(a) => MapUnit(a),
+        To(a) => MapZ(a),
+        ToSlice(a) => SliceWith(a),
+        ToSpan(a) => SpanWith(a),
+        DelimitedBy(a, o, c) => Mid(b(Group(Coll::Tuple, vec![*o, *a, *c]))),
+        PaddedBy(a, p) => Mid(b(Group(Coll::Tuple, vec![(*p).clone(), *a, *p]))),
+        Rep(a, bd, Sink::Bare) => MapUnit(b(Rep(a, bd, Sink::Vec))),
+        SepBy(a, s, bd, l, t, Sink::Bare) => MapUnit(b(SepBy(a, s, bd, l, t, Sink::Vec))),
+        o => o,
+    }
+}
+
+pub fn has_elision(g: &G) -> bool {
+    g.any_node(&|x| {
+        matches!(x, IgnoreThen(..) | ThenIgnore(..) | Ignored(_) | To(_) | ToSlice(_) | ToSpan(_) | DelimitedBy(..) | PaddedBy(..) | Rep(_, _, Sink::Bare) | SepBy(_, _, _, _, _, Sink::Bare))
+    })
+}
+
+// ---- further classes -------------------------------------------------------------------------------------
+
+/// K07: K01 plus every span/slice capture form.
+pub fn k07(slices: bool) -> Class {
+    let mut c = k01();
+    c.name = if slices { "K07" } else { "K07-noslice" };
+    c.unary.push(u1(|a| Some(ToSpan(a))));
+    c.unary.push(u1(|a| Some(SpanWith(a))));
+    c.unary.push(u1(|a| Some(Validate(a, 1))));
+    c.unary.push(u1(|a| if nn(&a) { Some(Rep(a, Bounds::STAR, Sink::FoldlWith(b(Empty)))) } else { None }));
+    c.unary.push(u1(|a| if nn(&a) { Some(Rep(a, Bounds::STAR, Sink::FoldrWith(b(Empty)))) } else { None }));
+    if slices {
+        c.unary.push(u1(|a| Some(ToSlice(a))));
+        c.unary.push(u1(|a| Some(SliceWith(a))));
+    }
+    c
+}
+
+/// context class (C15)
+pub fn k_ctx() -> Class {
+    let mut leaves = leaves_core();
+    leaves.push(JustCtx);
+    let mut unary = unary_core();
+    unary.extend(unary_rep_basic());
+    unary.push(u1(|a| Some(MapCtx(a))));
+    unary.push(u1(|a| Some(WithCtx('b', a))));
+    unary.push(u1(|a| if nn(&a) { Some(RepCtx(a)) } else { None }));
+    unary.push(u1(|a| if nn(&a) { Some(TryRepCtx(a)) } else { None }));
+    let mut binary = binary_core();
+    binary.push(u2(|a, c| Some(ThenWithCtx(a, c))));
+    binary.push(u2(|a, c| Some(IgnoreWithCtx(a, c))));
+    Class { name: "Kctx", leaves, unary, binary, ternary: vec![] }
+}
+
+/// state class (C18): extended class plus with_state
+pub fn k_state() -> Class {
+    let mut c = k_ext();
+    c.name = "Kstate";
+    c.leaves.push(Select("ac"));
+    c.unary.push(u1(|a| Some(WithState(a))));
+    c
+}
+
+/// recovery class over a bracket alphabet (nested_delimiters)
+pub fn k_nd() -> Class {
+    let leaves = vec![Just('a'), Just('('), Just(')'), Any, End, JustSeq('(', 'a')];
+    let unary = vec![u1(|a| Some(NestedDelims(a))), u1(|a| Some(OrNot(a))), u1(|a| if nn(&a) { Some(Rep(a, Bounds::STAR, Sink::Vec)) } else { None }), u1(|a| Some(Validate(a, 1)))];
+    let binary = vec![u2(|a, c| Some(Then(a, c))), u2(|a, c| Some(Or(a, c)))];
+    Class { name: "Knd", leaves, unary, binary, ternary: vec![] }
+}
